@@ -169,6 +169,11 @@ def judge06Go (prev : List (Option Seen)) (holes : Bool) : List (POp × Option N
             | none => some "vector-vanished") <|>
           -- a failed operation leaves the container unchanged (single-element operations)
           (if r = "raised" && isSingleElem op && !seenEq before after then some "failed-op-changed-container" else none) <|>
+          -- … also when it fails because an element's copy or move throws: the contents may then hold a
+          -- moved-from hull (shifting operations), but the container is as long as it was
+          (match after with
+            | some a => if r = "threw" && isSingleElem op && a.size ≠ b.size then some "failed-op-changed-size" else none
+            | none => none) <|>
           -- exact raise conditions
           (match o with
             | .emplaceBack _ | .insertC _ | .insertM _ | .pushBack _ =>
